@@ -212,6 +212,45 @@ def run_moves(case, ctx):
             # the operand is untouched
             if not all(same_row(a, b) for a, b in zip(row_dicts(f), base)) or labels_of(f.index) != [(key_of(x),) for x in index]:
                 ctx.violation('moves|operand-changed', **info)
+    # the same moves from a source whose HIERARCHICAL labels were built lazily and never read (from_labels / from_product): several shifts are taken from the one
+    # source (each result checked), with the axis realised beforehand or not, and the source is as it was afterwards
+    hier_builders = [('from_labels', lambda: sf.IndexHierarchy.from_labels([('g%d' % (i // 2), 'r%d' % i) for i in range(n)], name=('o', 'i')))]
+    if n % 2 == 0 and n:
+        hier_builders.append(('from_product', lambda: sf.IndexHierarchy.from_product(('g0', 'g1'), tuple('r%d' % i for i in range(n // 2)), name=('o', 'i'))))
+    for hname, hb in hier_builders:
+        for realised in (False, True):
+            for axis in (0, 1):
+                k1 = tuple((3, 1, 2, 5, 4, 0)[:n])
+                k2 = tuple('uv'[i % 2] for i in range(n))
+                cols = [arr(k1, 'int64'), arr(k2, '<U1'), arr([i + 0.5 for i in range(n)], 'float64')]
+                f, sig = mkframe(cols, ['k1', 'k2', 'x'], hb(), li)
+                hl = [tuple(t) for t in hb()]
+                if axis == 1:
+                    f = f.transpose()
+                if realised:
+                    (f.index if axis == 0 else f.columns).values
+                ctx.state(('moves-hier', hname, realised, axis, n, sig))
+                ctx.nontriv(('moves-hier', hname, realised, axis, n, sig))
+                info = dict(index_built_by=hname, realised_first=realised, axis=axis, layout=sig)
+                colv = {'k1': k1, 'k2': k2, 'x': tuple(i + 0.5 for i in range(n))}
+                try:
+                    for key in ('k2', 'k1', ['k1', 'x'], 'k2'):
+                        ctx.transition()
+                        keys = key if isinstance(key, list) else [key]
+                        g = f.relabel_shift_in(key, axis=axis)
+                        gt = g if axis == 0 else g.transpose()
+                        exp_labels = [tuple(key_of(x) for x in hl[i]) + tuple(key_of(colv[k][i]) for k in keys) for i in range(n)]
+                        rest = [k for k in ('k1', 'k2', 'x') if k not in keys]
+                        ok = labels_of(gt.index) == exp_labels and [c for c in gt.columns.values.tolist()] == rest and all(
+                            [norm(v) for v in gt[c].values.tolist()] == [norm(v) for v in colv[c]] for c in rest)
+                        if not ok:
+                            ctx.violation('relabel_shift_in|hierarchical-source|rows', **info, key=key, got=(labels_of(gt.index), gt.columns.values.tolist()), expected=(exp_labels, rest))
+                            break
+                    ft = f if axis == 0 else f.transpose()
+                    if ft.index.depth != 2 or [tuple(t) for t in ft.index] != hl or ft.index.values.shape != (n, 2) or ft.unset_index().shape != (n, 5):
+                        ctx.violation('relabel_shift_in|hierarchical-source|operand-changed', **info, depth=ft.index.depth, labels=[tuple(t) for t in ft.index])
+                except Exception as e:
+                    ctx.violation(f'relabel_shift_in|hierarchical-source|raises|{type(e).__name__}', **info, error=repr(e))
     ctx.outcome('moves')
     ctx.sample({'family': 'moves', 'n': n, 'layout': li}, limit=1)
 
